@@ -700,7 +700,7 @@ fn gen_ext_task(rng: &mut Rng, origin: String) -> ExtTask {
     }
     if g.rng.chance(1, 2) {
         let v = fol::GeneralTerm::Variable("X".into());
-        let body = fol::Formula::BinaryFormula { connective: fol::BinaryConnective::Implication, lhs: Box::new(atom1("in1", v.clone())), rhs: Box::new(if sloppy && g.rng.chance(1, 3) { atom1("out1", v) } else { fol::Formula::AtomicFormula(fol::AtomicFormula::Comparison(fol::Comparison { term: v, guards: vec![fol::Guard { relation: fol::Relation::GreaterEqual, term: fol::GeneralTerm::SymbolicTerm(fol::SymbolicTerm::Symbol("n".into())) }] })) }) };
+        let body = fol::Formula::BinaryFormula { connective: fol::BinaryConnective::Implication, lhs: Box::new(atom1("in1", v.clone())), rhs: Box::new(if sloppy && g.rng.chance(1, 3) { atom1(*g.rng.pick(&["out1", "q", "aux", "q_p"]), v) } else { fol::Formula::AtomicFormula(fol::AtomicFormula::Comparison(fol::Comparison { term: v, guards: vec![fol::Guard { relation: fol::Relation::GreaterEqual, term: fol::GeneralTerm::SymbolicTerm(fol::SymbolicTerm::Symbol("n".into())) }] })) }) };
         entries.push(fol::UserGuideEntry::AnnotatedFormula(fol::AnnotatedFormula { role: if g.rng.chance(1, 8) { fol::Role::Lemma } else { fol::Role::Assumption }, direction: *g.rng.pick(&[fol::Direction::Universal, fol::Direction::Universal, fol::Direction::Forward, fol::Direction::Backward]), name: if g.rng.chance(1, 2) { "ug_assumption".into() } else { String::new() }, formula: fol::Formula::QuantifiedFormula { quantification: fol::Quantification { quantifier: fol::Quantifier::Forall, variables: vec![fol::Variable { name: "X".into(), sort: fol::Sort::General }] }, formula: Box::new(body) } }));
     }
     if g.rng.chance(1, 8) {
